@@ -705,7 +705,7 @@ package websocket
 //@ loop 1 invariant [none-so-far] forall(0, rangeindex+1, func(j int) bool { return !specOfferOK(extensions[j]) })
 
 //@ func websocketExtensions
-//@ assumed splitting of the Sec-WebSocket-Extensions lines at ',' and ';' (strings.Split/TrimSpace) is not verified; the result is described by uninterpreted functions of the header
+//@ assumed splitting of the Sec-WebSocket-Extensions lines at ',' and ';' (strings.Split/TrimSpace) is not verified; the result is described by uninterpreted functions of the header; a bounded differential check against an independent splitter stands in (replaydrv/bounded_headerTokens.go.txt)
 //@ ensures [count] len(result) == specExtCount(h) && specExtCount(h) >= 0
 //@ ensures [elems] forall(0, len(result), func(i int) bool { return result[i].name == specExtName(h, i) && len(result[i].params) == specExtParamCount(h, i) && forall(0, len(result[i].params), func(j int) bool { return result[i].params[j] == specExtParam(h, i, j) }) })
 //@ ensures [fresh] len(result) == 0 || gvcFreshSlice(result)
